@@ -1,4 +1,4 @@
-\* thorough: the repaired design, 3 requests with two priorities, queue of 2, no shutdown - every safety clause
+\* optional (VERIF_C06_BIG=1, ~12.3e6 distinct states, ~10 min with 4 workers): as MC_fixed3 with a 2-tick quota window and one more tick
 CONSTANTS
   Req = {"r1", "r2", "r3"}
   Prio <- cPrio3
@@ -6,8 +6,8 @@ CONSTANTS
   Slack = 1
   QueueSize = 2
   QMax = 1
-  QW = 1
-  MaxNow = 3
+  QW = 2
+  MaxNow = 4
   Shutdowns = FALSE
   SplitSlotCheck = FALSE
   RequeueNewTs = FALSE
